@@ -1,5 +1,5 @@
 (* C09 — writer output does not depend on how the same document is presented.  Statements only. *)
-From Ebml Require Import Base Tools Spec Writer Proofs.Tactics Proofs.SpecProofs Proofs.WriterProofs.
+From Ebml Require Import Base Tools Spec Writer Reader Pure Encode Proofs.Tactics Proofs.SpecProofs Proofs.WriterProofs Proofs.RoundTrip Proofs.WriteEnc Proofs.WriteFull.
 
 (* the deprecated unknown-size call is the option-based one *)
 Theorem C09_deprecated : forall sp st t, wstep sp st (OpWriteUnknown t) = wstep sp st (OpWrite t {| o_len := None; o_unknown := true |}).
@@ -44,3 +44,21 @@ Example C09_ex :
   snd (run_writer sp [OpWrite (TStart 129) u; OpWrite (TStart 16643) o_default; OpWrite (TElem 16642 (VB [7; 8])) o_default;
                       OpWrite (TEnd 16643) o_default; OpWrite (TEnd 129) o_default; OpIntoInner] [WAcc 1; WInt; WAcc 3]).
 Proof. vm_compute. reflexivity. Qed.
+
+(* ------------------------------------------------------------------ whole documents (Proofs/WriteEnc.v, Proofs/WriteFull.v) *)
+(* a conforming document written tag by tag (Start / elements / End; explicit widths or defaults; unknown size by option)
+   gives its structural encoding [enc_forest], in which options show up only in the size fields they govern *)
+Theorem C09_separate_calls_encode : forall sp d f, Forall (wconf sp d []) f ->
+  Forall (fun r => fst r = WOk) (fst (run_writer sp (wops_forest d f) [])) /\ snd (run_writer sp (wops_forest d f) []) = enc_forest f.
+Proof. exact writer_encodes. Qed.
+
+(* the same document with every master given as one Full item gives the same structural encoding ... *)
+Theorem C09_full_items_encode : forall sp d f, Forall (fconf sp d []) f ->
+  Forall (fun r => fst r = WOk) (fst (run_writer sp (fops d f) [])) /\ snd (run_writer sp (fops d f) []) = enc_forest f.
+Proof. exact full_encodes. Qed.
+
+(* ... hence byte-identical output for the two presentations, although the separate calls flush in between whenever only
+   unknown-size masters are open and the Full call does not *)
+Theorem C09_full_equals_separate : forall sp f, Forall (fconf sp true []) f -> Forall all_known f ->
+  snd (run_writer sp (fops true f) []) = snd (run_writer sp (wops_forest true f) []).
+Proof. exact full_equals_separate. Qed.
